@@ -1225,7 +1225,7 @@ def run(chk: Check) -> None:
         if quick:
             df, dg, cap = (1, 2, 140) if heavy else (2, 4, 500)
         elif heavy:
-            df, dg, cap = 2, 3, 1400
+            df, dg, cap = 2, 3, 1000
         else:
             df, dg, cap = (2, 6, 2500) if spec["id"] == "mlp-noisy-small" else (3, 6, 9000)
         n, d = explore(chk, "explore", spec, policy, df, dg, True, known, cap)
